@@ -26,21 +26,21 @@ fn work_dir() -> String {
 /// planned number of runs per property and tier (counts, not durations)
 pub fn planned_runs(prop: &str, tier: &str) -> u64 {
     let quick = match prop {
-        "C02" => 160_000,
-        "C03" => 120_000,
-        "C05" => 120_000,
-        "C06" => 120_000,
-        "C07" => 400_000,
-        "C10" => 40_000,
-        "C11" => 200_000,
-        "C14" => 400_000,
-        "C15" => 400_000,
-        "C18" => 160_000,
-        "C19" => 40_000,
+        "C02" => 600_000,
+        "C03" => 1_000_000,
+        "C05" => 800_000,
+        "C06" => 1_200_000,
+        "C07" => 500_000,
+        "C10" => 250_000,
+        "C11" => 1_500_000,
+        "C14" => 3_000_000,
+        "C15" => 3_000_000,
+        "C18" => 1_500_000,
+        "C19" => 250_000,
         _ => 10_000,
     };
     if tier == "thorough" {
-        quick * 25
+        quick * 20
     } else {
         quick
     }
